@@ -40,12 +40,13 @@ type GrammarSpec struct {
 }
 
 type Spec struct {
-	Dir      string
-	Passes   []PassSpec             `json:"passes"`
-	Grammars []GrammarSpec          `json:"grammars"`
-	G        map[string]*Grammar    `json:"-"`
-	Raw      map[string]interface{} `json:"-"`
-	Tables   *Tables                `json:"-"`
+	Dir           string
+	Passes        []PassSpec             `json:"passes"`
+	Grammars      []GrammarSpec          `json:"grammars"`
+	ReceiverState []ReceiverStateSpec    `json:"receiver_state"`
+	G             map[string]*Grammar    `json:"-"`
+	Raw           map[string]interface{} `json:"-"`
+	Tables        *Tables                `json:"-"`
 }
 
 func readJSON(path string, v interface{}) error {
